@@ -132,6 +132,103 @@ Section Dict.
     apply in_map_iff. now exists (k, (false, v1)).
   Qed.
 
+  (** ---- parameters[name] = all_parameter_values[name] for the names not yet in the dict ---- *)
+  Lemma missing_params_In (m : cmodel V) d k v :
+    In (k, v) (missing_params V m d) <-> (exists ia, In (k, (ia, v)) (m_par m)) /\ ~ In k (map fst d).
+  Proof.
+    unfold missing_params. rewrite in_flat_map. split.
+    - intros [[k' [ia v']] [H1 H2]]. cbn [fst snd] in H2.
+      destruct (existsb (N.eqb k') (map fst d)) eqn:E; [destruct H2|].
+      destruct H2 as [H2|[]]. injection H2 as -> ->. split; [now exists ia|].
+      intros Hin. assert (Ht : existsb (N.eqb k) (map fst d) = true).
+      { apply existsb_exists. exists k. split; [exact Hin|apply N.eqb_refl]. }
+      congruence.
+    - intros [[ia H1] H2]. exists (k, (ia, v)). split; [exact H1|]. cbn [fst snd].
+      destruct (existsb (N.eqb k) (map fst d)) eqn:E; [|now left].
+      apply existsb_exists in E. destruct E as [z [Hz E]]. apply N.eqb_eq in E. subst z. contradiction.
+  Qed.
+
+  Lemma missing_params_keys (m : cmodel V) d :
+    NoDup (map fst (m_par m)) -> NoDup (map fst (missing_params V m d)).
+  Proof.
+    unfold missing_params. induction (m_par m) as [|[k [ia v]] r IH]; cbn [flat_map map fst snd]; [constructor|].
+    intros ND. inversion ND as [|? ? Hn ND']; subst.
+    destruct (existsb (N.eqb k) (map fst d)); cbn [app map fst]; [now apply IH|].
+    constructor; [|now apply IH]. intros H. apply Hn.
+    apply in_map_iff in H. destruct H as [[k1 v1] [E H]]. cbn in E. subst k1.
+    apply in_flat_map in H. destruct H as [[k2 [ia2 v2]] [H1 H2]]. cbn [fst snd] in H2.
+    destruct (existsb (N.eqb k2) (map fst d)); [destruct H2|]. destruct H2 as [H2|[]].
+    injection H2 as -> ->. apply in_map_iff. now exists (k, (ia2, v1)).
+  Qed.
+
+  Lemma nodup_app_intro {A} (a b : list A) :
+    NoDup a -> NoDup b -> (forall x, In x a -> In x b -> False) -> NoDup (a ++ b).
+  Proof.
+    induction a as [|z a IH]; cbn; intros Ha Hb Hd; [exact Hb|].
+    inversion Ha as [|? ? Hn Ha']; subst. constructor.
+    - rewrite in_app_iff. intros [H|H]; [contradiction|]. eapply Hd; [now left|exact H].
+    - apply IH; [exact Ha'|exact Hb|]. intros x Hx. apply Hd. now right.
+  Qed.
+
+  Lemma emitted_params_keys F (m : cmodel V) :
+    NoDup (map fst (m_par m)) -> NoDup (map fst (emitted_params V F m (base_params m))).
+  Proof.
+    intros ND. unfold emitted_params. destruct (f_ia F); try now apply base_params_keys.
+    rewrite map_app. apply nodup_app_intro; [now apply base_params_keys|now apply missing_params_keys|].
+    intros x Hx Hy. apply in_map_iff in Hy. destruct Hy as [[k v] [E Hy]]. cbn in E. subst k.
+    apply missing_params_In in Hy. now destruct Hy.
+  Qed.
+
+  Lemma emitted_params_In F (m : cmodel V) k v :
+    In (k, v) (emitted_params V F m (base_params m)) -> exists ia, In (k, (ia, v)) (m_par m).
+  Proof.
+    unfold emitted_params. intros H.
+    assert (Hb : In (k, v) (base_params m) -> exists ia, In (k, (ia, v)) (m_par m)).
+    { intros Hb. exists false. now apply base_params_In. }
+    destruct (f_ia F); try now apply Hb.
+    apply in_app_iff in H. destruct H as [H|H]; [now apply Hb|]. apply missing_params_In in H. now destruct H.
+  Qed.
+
+  Lemma base_in_emitted F (m : cmodel V) : incl (base_params m) (emitted_params V F m (base_params m)).
+  Proof. unfold emitted_params. destruct (f_ia F); intros x Hx; try exact Hx. apply in_app_iff. now left. Qed.
+
+  (** every parameter of the model is emitted (or popped): plain ones always, assignment-defined
+      ones when the generator adds them *)
+  Lemma emitted_params_all F (m : cmodel V) k ia v :
+    NoDup (map fst (m_par m)) -> In (k, (ia, v)) (m_par m) -> ia = false \/ f_ia F = IaFrozen ->
+    In (k, v) (emitted_params V F m (base_params m)).
+  Proof.
+    intros ND Hin Hc. destruct ia.
+    - destruct Hc as [Hc|Hc]; [discriminate|]. unfold emitted_params. rewrite Hc.
+      apply in_app_iff. right. apply missing_params_In. split; [now exists true|].
+      intros Hk. apply in_map_iff in Hk. destruct Hk as [[k1 v1] [E Hk]]. cbn in E. subst k1.
+      apply base_params_In in Hk.
+      assert (E1 := In_assoc k _ _ ND Hin). assert (E2 := In_assoc k _ _ ND Hk). congruence.
+    - apply base_in_emitted. now apply base_params_In.
+  Qed.
+
+  (** ---- diff_eqs[variable] = {} for the variables no reaction acts on -------------------- *)
+  Lemma zero_vars_In F (m : cmodel V) de x :
+    In x (zero_vars V F m de) -> In x (m_var m) /\ ~ In x (map fst de).
+  Proof.
+    unfold zero_vars. destruct (f_untouched F); try (intros []). destruct de as [|d0 dr]; [intros []|].
+    intros H. apply filter_In in H. destruct H as [H1 H2]. split; [exact H1|].
+    intros Hin. apply negb_true_iff in H2.
+    assert (Ht : existsb (N.eqb x) (map fst (d0 :: dr)) = true).
+    { apply existsb_exists. exists x. split; [exact Hin|apply N.eqb_refl]. }
+    congruence.
+  Qed.
+
+  Lemma zero_vars_all F (m : cmodel V) de x :
+    f_untouched F = UtZero -> de <> [] -> In x (m_var m) -> ~ In x (map fst de) ->
+    In x (zero_vars V F m de).
+  Proof.
+    intros HF Hne Hx Hn. unfold zero_vars. rewrite HF. destruct de as [|d0 dr]; [congruence|].
+    apply filter_In. split; [exact Hx|]. apply negb_true_iff.
+    destruct (existsb (N.eqb x) (map fst (d0 :: dr))) eqn:E; [|reflexivity].
+    apply existsb_exists in E. destruct E as [z [Hz E]]. apply N.eqb_eq in E. subst z. contradiction.
+  Qed.
+
   (** ---- diff_eqs.setdefault(var, {})[rxn] = factor ------------------------------------ *)
   Definition dl (de : list (name * list (name * coef V))) (x : name) : list (name * coef V) :=
     match assoc x de with Some ts => ts | None => [] end.
@@ -482,6 +579,27 @@ Section Proofs.
           exfalso. apply Hk. now left.
     Qed.
 
+    (** the explicit zero lines of the untouched variables (empty sums) *)
+    Lemma run_zeros L zs : forall pe S,
+      Good pe S ->
+      exists pe', run_body V vzero vadd vmul isem L pe
+                    (map (fun x : name * list (name * coef V) => (PD (fst x), RSum (snd x)))
+                         (map (fun v : name => (v, @nil (name * coef V))) zs)) = inl pe'
+                  /\ Good pe' S
+                  /\ (forall z, In z zs -> plookup V (PD z) pe' = Some (SVal vzero))
+                  /\ (forall k, ~ In k zs -> plookup V (PD k) pe' = plookup V (PD k) pe).
+    Proof.
+      induction zs as [|z r IH]; intros pe S HG; cbn [map fst snd run_body eval_rhs eval_sum].
+      - exists pe. split; [reflexivity|]. split; [exact HG|]. split; [intros ? []|reflexivity].
+      - destruct (IH ((PD z, SVal vzero) :: pe) S (good_extD _ _ _ _ HG)) as (pe' & H1 & H2 & H3 & H4).
+        exists pe'. split; [exact H1|]. split; [exact H2|]. split.
+        + intros z' Hz'. destruct (in_dec N.eq_dec z' r) as [Hr|Hr]; [now apply H3|].
+          destruct Hz' as [<-|Hz']; [|contradiction]. rewrite (H4 z Hr). cbn. now rewrite N.eqb_refl.
+        + intros k Hk. rewrite H4 by (intros Hk'; apply Hk; now right). cbn.
+          destruct (N.eqb k z) eqn:E; [|reflexivity]. apply N.eqb_eq in E. subst.
+          exfalso. apply Hk. now left.
+    Qed.
+
     Lemma looksD pe (m : cmodel V) xs :
       (forall x, In x xs -> exists d, dxdt V vzero vadd vmul fsem m e x = Some d
                                       /\ plookup V (PD x) pe = Some (SVal d)) ->
@@ -505,8 +623,11 @@ Section Proofs.
     match lf_ret (lf_of F L), vs with RetBare, [] => False | RetBare, [_] => False | _, _ => True end ->
     exec V vzero vadd vmul isem F L p t y fv = ROk vs.
   Proof.
-    intros H0 H1 H2 H3 H4 H5 H6. unfold exec. rewrite H0. cbn [negb]. rewrite H1, H2, H3, H4, H5.
-    destruct (lf_ret (lf_of F L)), vs as [|? [|? ?]]; try reflexivity; contradiction.
+    intros H0 H1 H2 H3 H4 H5 H6.
+    assert (Hr : exec_run V vzero vadd vmul isem F L p t y fv = ROk vs).
+    { unfold exec_run. rewrite H1, H2, H3, H4, H5.
+      destruct (lf_ret (lf_of F L)), vs as [|? [|? ?]]; try reflexivity; contradiction. }
+    unfold exec. rewrite H0. exact Hr.
   Qed.
 
   Lemma topo_incl cs : forall S S', incl S S' -> topo S cs -> topo S' cs.
@@ -532,12 +653,17 @@ Section Proofs.
     end.
 
   (** THE equivalence theorem, for every fact value with dependency-order emission, named
-      assignments and a list pattern for the variables *)
+      assignments and a list pattern for the variables.  The two guards are disjunctions: a model
+      with an assignment-defined parameter is covered when the generator emits those parameters
+      ([IaFrozen]); a model with a variable no reaction acts on is covered when the generator
+      writes the explicit zero ([UtZero]) and the model has an equation at all *)
   Theorem equiv_generic F L (m : cmodel V) order free p t y fv (e : env V) :
     f_order F = OrdDep -> lf_asg (lf_of F L) = AsgName -> lf_ds (lf_of F L) = DsList ->
     ret_ok (lf_of F L) m ->
     generate V translates F L m order free = GOk p ->
-    NoDup (map fst (m_par m)) -> NoAssignedParams V m -> EveryVariableHasReaction V m ->
+    NoDup (map fst (m_par m)) ->
+    NoAssignedParams V m \/ f_ia F = IaFrozen ->
+    EveryVariableHasReaction V m \/ (f_untouched F = UtZero /\ HasEquation V m) ->
     CoefArgsKnown V m -> ValidOrder V m order ->
     Resolved V fsem m free fv t y e ->
     exists ds, map_opt (dxdt V vzero vadd vmul fsem m e) (m_var m) = Some ds
@@ -546,24 +672,49 @@ Section Proofs.
     intros Hord Hasg Hds Hret Hgen NDp NoIA EVR CAK [Htopo Hcover] [Rt Rv Rf Rp Rd Rr Rc].
     unfold generate, generate_from in Hgen.
     destruct (negb (facts_usable F L)); [discriminate|].
-    destruct (pop_all free (base_params m)) as [[|] pars] eqn:Hpop; [|discriminate].
+    destruct (pop_all free (emitted_params V F m (base_params m))) as [[|] pars] eqn:Hpop; [|discriminate].
     unfold emit_list in Hgen. rewrite Hord in Hgen.
     destruct (emit_comps V translates (lf_of F L) (comps_of_order V m order)) as [comps|] eqn:Hemit; [|discriminate].
     destruct (diffs_ok V translates (build_diff V (entries V m))) eqn:Hdok; cbn [negb] in Hgen; [|discriminate].
     destruct (emit_comps_some _ _ _ Hemit) as [-> Htr].
     destruct (build_diff_spec (entries V m)) as (NDde & Hde1 & Hde2).
     set (de := build_diff V (entries V m)) in *.
-    assert (Hvar : forall x, In x (m_var m) -> In (x, stoich_terms V m x) de).
-    { intros x Hx. rewrite <- terms_entries. apply Hde2. rewrite terms_entries. now apply EVR. }
-    assert (Hro : filter (fun v => existsb (N.eqb v) (map fst de)) (m_var m) = m_var m).
-    { apply filter_all. intros x Hx. apply existsb_exists. exists x. split; [|apply N.eqb_refl].
-      apply in_map_iff. exists (x, stoich_terms V m x). split; [reflexivity|now apply Hvar]. }
-    rewrite Hro in Hgen.
     assert (Hne : m_var m <> []).
     { unfold ret_ok in Hret. destruct (lf_ret (lf_of F L)); destruct (m_var m); cbn in Hret; try lia; try contradiction; discriminate. }
-    assert (Hunit : match de with [] => true | _ :: _ => false end = false).
-    { destruct (m_var m) as [|x r] eqn:Ev; [congruence|]. specialize (Hvar x (or_introl eq_refl)).
-      destruct de; [destruct Hvar|reflexivity]. }
+    (* every variable has a line: a sum, or the explicit zero *)
+    set (zs := zero_vars V F m de) in *.
+    assert (Hzs : forall x, In x zs -> In x (m_var m) /\ ~ In x (map fst de)) by (intros x; apply zero_vars_In).
+    assert (Hinde : forall x, In x (map fst de) -> In (x, stoich_terms V m x) de).
+    { intros x Hx. apply in_map_iff in Hx. destruct Hx as [[x' ts] [E Hx]]. cbn in E. subst x'.
+      assert (Hts := Hde1 x ts Hx). rewrite terms_entries in Hts. now subst ts. }
+    assert (Hnotde : forall x, ~ In x (map fst de) -> stoich_terms V m x = []).
+    { intros x Hx. destruct (stoich_terms V m x) eqn:E; [reflexivity|]. exfalso. apply Hx.
+      apply in_map_iff. exists (x, terms (entries V m) x). split; [reflexivity|].
+      apply Hde2. rewrite terms_entries, E. discriminate. }
+    assert (Hcov : de <> [] /\ forall x, In x (m_var m) -> In x (map fst de) \/ In x zs).
+    { destruct EVR as [EVR|[HF (n & f & a & st & x & c & H1 & H2)]].
+      - assert (Hvar : forall x, In x (m_var m) -> In x (map fst de)).
+        { intros x Hx. apply in_map_iff. exists (x, terms (entries V m) x). split; [reflexivity|].
+          apply Hde2. rewrite terms_entries. now apply EVR. }
+        split; [|intros x Hx; left; now apply Hvar].
+        destruct (m_var m) as [|x r] eqn:Ev; [congruence|]. specialize (Hvar x (or_introl eq_refl)).
+        intros E. rewrite E in Hvar. destruct Hvar.
+      - assert (Hd : de <> []).
+        { assert (Hin : In (n, c) (terms (entries V m) x)) by (apply In_terms, In_entries; now exists f, a, st).
+          assert (Hn : terms (entries V m) x <> []) by (intros E; rewrite E in Hin; destruct Hin).
+          specialize (Hde2 x Hn). intros E. rewrite E in Hde2. destruct Hde2. }
+        split; [exact Hd|]. intros z Hz.
+        destruct (in_dec N.eq_dec z (map fst de)) as [Hi|Hi]; [now left|right].
+        now apply zero_vars_all. }
+    destruct Hcov as [Hdne Hcov].
+    assert (Hkeys : map fst (full_diff V F m de) = map fst de ++ zs).
+    { unfold full_diff. fold zs. rewrite map_app, map_map. cbn [fst]. now rewrite map_id. }
+    assert (Hro : filter (fun v => existsb (N.eqb v) (map fst (full_diff V F m de))) (m_var m) = m_var m).
+    { apply filter_all. intros x Hx. apply existsb_exists. exists x. split; [|apply N.eqb_refl].
+      rewrite Hkeys. apply in_app_iff. now apply Hcov. }
+    rewrite Hro in Hgen.
+    assert (Hunit : match full_diff V F m de with [] => true | _ :: _ => false end = false).
+    { unfold full_diff. destruct de; [congruence|reflexivity]. }
     rewrite Hunit in Hgen. unfold lhs_of in Hgen. rewrite Hasg in Hgen. cbv iota in Hgen.
     injection Hgen as <-.
     (* header: time and the free parameters *)
@@ -577,21 +728,23 @@ Section Proofs.
     { unfold bind_vars. rewrite Hds. destruct (m_var m) as [|x [|x' r]]; [congruence|exact Hb1|exact Hb1]. }
     (* parameters *)
     set (S1 := m_var m ++ free ++ [tname]) in *.
+    assert (NDe := emitted_params_keys V F m NDp).
     destruct (run_params e L pars pe1 S1 G1) as [pe2 [Hr2 G2]].
-    { intros k v Hk. apply (pop_all_spec free _ _ (base_params_keys m NDp) Hpop) in Hk.
-      destruct Hk as [Hk Hnf]. apply base_params_In in Hk. eapply Rp; eassumption. }
+    { intros k v Hk. apply (pop_all_spec free _ _ NDe Hpop) in Hk.
+      destruct Hk as [Hk Hnf]. apply emitted_params_In in Hk. destruct Hk as [ia Hk]. eapply Rp; eassumption. }
     set (S2 := map fst pars ++ S1) in *.
     assert (Havail : incl (tname :: map fst (m_par m) ++ m_var m) S2).
     { intros z [<-|Hz].
       - apply in_app_iff. right. apply in_app_iff. right. apply in_app_iff. right. now left.
       - apply in_app_iff in Hz. destruct Hz as [Hz|Hz].
         + apply in_map_iff in Hz. destruct Hz as [[k [ia v]] [Ek Hk]]. cbn in Ek. subst k.
-          assert (ia = false) by (eapply NoIA; exact Hk). subst ia.
+          assert (Hia : ia = false \/ f_ia F = IaFrozen).
+          { destruct NoIA as [NoIA|NoIA]; [left; eapply NoIA; exact Hk|now right]. }
           destruct (in_dec N.eq_dec z free) as [Hf|Hf].
           * apply in_app_iff. right. apply in_app_iff. right. apply in_app_iff. now left.
           * apply in_app_iff. left. apply in_map_iff. exists (z, v). split; [reflexivity|].
-            apply (pop_all_spec free _ _ (base_params_keys m NDp) Hpop). split; [|exact Hf].
-            now apply base_params_In.
+            apply (pop_all_spec free _ _ NDe Hpop). split; [|exact Hf].
+            eapply emitted_params_all; eassumption.
         + apply in_app_iff. right. apply in_app_iff. now left. }
     (* derived quantities and reactions, in the order of the cache *)
     destruct (run_comps e L (comps_of_order V m order) pe2 S2 G2 (topo_incl _ _ _ Havail Htopo)) as [pe3 [Hr3 G3]].
@@ -608,7 +761,7 @@ Section Proofs.
           apply Hcover, in_app_iff. now left.
         + apply in_app_iff. left. apply comps_of_order_names; [|now right].
           apply Hcover, in_app_iff. now right. }
-    (* one sum per variable *)
+    (* one sum per key of diff_eqs *)
     destruct (run_diffs e L de pe3 S3 G3 NDde) as (pe4 & Hr4 & G4 & HD & _).
     { intros x ts Hin r c Hrc. assert (Hrc' := Hrc). rewrite (Hde1 x ts Hin) in Hrc.
       apply In_terms, In_entries in Hrc. destruct Hrc as (f & a & st & H1 & H2). split.
@@ -619,16 +772,23 @@ Section Proofs.
           cbn in Hdok. rewrite forallb_forall in Hdok. exact (Hdok (r, CDyn g ga) Hrc').
         + intros z Hz. apply Hknown. eapply CAK; eassumption.
         + eapply Rc; eassumption. }
+    (* the explicit zeros *)
+    destruct (run_zeros e L zs pe4 S3 G4) as (pe5 & Hr5 & G5 & HZ & HZf).
     (* the returned list *)
-    destruct (looksD e pe4 m (m_var m)) as [ds [Hds1 Hds2]].
-    { intros x Hx. destruct (HD x _ (Hvar x Hx)) as [d [Hd1 Hd2]]. exists d. split; [exact Hd1|exact Hd2]. }
+    destruct (looksD e pe5 m (m_var m)) as [ds [Hds1 Hds2]].
+    { intros x Hx. destruct (Hcov x Hx) as [Hi|Hi].
+      - destruct (HD x _ (Hinde x Hi)) as [d [Hd1 Hd2]]. exists d. split; [exact Hd1|].
+        rewrite HZf; [exact Hd2|]. intros Hz. apply Hzs in Hz. now destruct Hz.
+      - exists vzero. split; [|now apply HZ]. unfold dxdt.
+        rewrite (Hnotde x (proj2 (Hzs x Hi))). reflexivity. }
     exists ds. split; [exact Hds1|].
-    eapply exec_ok with (pe0 := pe0) (pe1 := pe1) (pe2 := pe4); cbn [g_free g_vars g_body g_ret g_unit g_n].
+    eapply exec_ok with (pe0 := pe0) (pe1 := pe1) (pe2 := pe5); cbn [g_free g_vars g_body g_ret g_unit g_n].
     - unfold static_ok. cbn [g_free g_vars g_body g_ret g_unit g_n]. rewrite Hds, map_length, Nat.eqb_refl.
       unfold ret_ok in Hret. destruct (lf_ret (lf_of F L)); [| |contradiction]; destruct L; reflexivity.
     - exact Hb0.
     - exact Hbv.
-    - rewrite run_body_app, Hr2. cbv beta iota. rewrite run_body_app, Hr3. exact Hr4.
+    - rewrite run_body_app, Hr2. cbv beta iota. rewrite run_body_app, Hr3.
+      unfold full_diff. fold zs. rewrite map_app, run_body_app, Hr4. exact Hr5.
     - reflexivity.
     - exact Hds2.
     - unfold ret_ok in Hret. destruct (lf_ret (lf_of F L)); [|trivial|trivial].
@@ -645,7 +805,10 @@ Section Proofs.
     exists p, generate V translates F L m order free = GOk p.
   Proof.
     intros Hu Hord NDp NDf Hfree Hd Hr. unfold generate, generate_from. rewrite Hu. cbn [negb].
-    destruct (pop_all_ok free (base_params m) (base_params_keys m NDp) NDf Hfree) as [pars Hp]. rewrite Hp.
+    destruct (pop_all_ok free (emitted_params V F m (base_params m)) (emitted_params_keys V F m NDp) NDf) as [pars Hp].
+    { intros k Hk. specialize (Hfree k Hk). apply in_map_iff in Hfree. destruct Hfree as [kv [E Hkv]].
+      apply in_map_iff. exists kv. split; [exact E|]. now apply (base_in_emitted V F m). }
+    rewrite Hp.
     unfold emit_list. rewrite Hord.
     destruct (emit_comps_all (lf_of F L) (comps_of_order V m order)) as [b Hb].
     { intros n f a Hin. destruct (comps_of_order_In m order n f a Hin) as [H|[st H]];
@@ -673,7 +836,7 @@ Section Proofs.
   Proof.
     intros Hord Hgen ND Hcover. unfold generate, generate_from in Hgen.
     destruct (negb (facts_usable F L)); [discriminate|].
-    destruct (pop_all free (base_params m)) as [[|] pars]; [|discriminate].
+    destruct (pop_all free (emitted_params V F m (base_params m))) as [[|] pars]; [|discriminate].
     unfold emit_list in Hgen. rewrite Hord in Hgen.
     destruct (emit_comps V translates (lf_of F L) (comps_of_order V m order)) as [comps|] eqn:Hemit; [|discriminate].
     destruct (diffs_ok V translates (build_diff V (entries V m))) eqn:Hdok; cbn [negb] in Hgen; [|discriminate].
@@ -699,12 +862,34 @@ Section Proofs.
     /\ generate_again V translates F L m order free = generate V translates F L m order free.
   Proof. intros H. unfold generate_again, generate, cache_after. rewrite H. cbn [orb]. now split. Qed.
 
+  (** a computed coefficient reaches the program as the expression [CDyn g ga] in the sum of its
+      variable -- the generator never evaluates it *)
+  Theorem coef_expression_generic F L (m : cmodel V) order free p n f a st x g ga :
+    generate V translates F L m order free = GOk p ->
+    In (n, (f, a, st)) (m_rxn m) -> In (x, CDyn g ga) st ->
+    exists ts, In (lhs_of (lf_of F L) (PD x), RSum ts) (g_body p) /\ In (n, CDyn g ga) ts.
+  Proof.
+    intros Hgen Hr Hx. unfold generate, generate_from in Hgen.
+    destruct (negb (facts_usable F L)); [discriminate|].
+    destruct (pop_all free (emitted_params V F m (base_params m))) as [[|] pars]; [|discriminate].
+    destruct (emit_comps V translates (lf_of F L) (emit_list V F m order)) as [comps|]; [|discriminate].
+    destruct (negb (diffs_ok V translates (build_diff V (entries V m)))); [discriminate|].
+    injection Hgen as <-. cbn [g_body].
+    destruct (build_diff_spec (entries V m)) as (_ & _ & Hde2).
+    assert (Hin : In (n, CDyn g ga) (terms (entries V m) x)) by (apply In_terms, In_entries; now exists f, a, st).
+    assert (Hne : terms (entries V m) x <> []) by (intros E; rewrite E in Hin; destruct Hin).
+    exists (terms (entries V m) x). split; [|exact Hin].
+    apply in_app_iff. right. apply in_app_iff. right. apply in_map_iff.
+    exists (x, terms (entries V m) x). split; [reflexivity|].
+    unfold full_diff. apply in_app_iff. left. now apply Hde2.
+  Qed.
+
   Lemma generate_shape F L (m : cmodel V) order free p :
     generate V translates F L m order free = GOk p -> g_vars p = m_var m /\ g_free p = free.
   Proof.
     unfold generate, generate_from.
     destruct (negb (facts_usable F L)); [discriminate|].
-    destruct (pop_all free (base_params m)) as [[|] pars]; [|discriminate].
+    destruct (pop_all free (emitted_params V F m (base_params m))) as [[|] pars]; [|discriminate].
     destruct (emit_comps V translates (lf_of F L) (emit_list V F m order)); [|discriminate].
     destruct (negb (diffs_ok V translates (build_diff V (entries V m)))); [discriminate|].
     intros H. injection H as <-. now split.
@@ -717,6 +902,8 @@ Section Proofs.
     exec V vzero vadd vmul isem F L p t y fv = RIllFormed.
   Proof.
     intros Hds Hgen Hne. destruct (generate_shape _ _ _ _ _ _ Hgen) as [Hv _].
-    unfold exec, static_ok. rewrite Hds, Hv. destruct (m_var m); [congruence|reflexivity].
+    assert (Hs : static_ok V (lf_of F L) L p = false).
+    { unfold static_ok. rewrite Hds, Hv. destruct (m_var m); [congruence|reflexivity]. }
+    unfold exec. now rewrite Hs.
   Qed.
 End Proofs.
